@@ -52,10 +52,16 @@ type Sched struct {
 	aborted  string
 	mismatch string
 	expect   []schedPoint // when replaying: the recorded points to compare against (optional)
+	// auto: a goroutine the harness has not registered that reaches a scheduling point is a helper started by the
+	// code under test (read-ahead, background closer, ...): it becomes an actor of its own (numbered from 50 in order
+	// of first appearance), so that its steps are interleaved with everyone else's like any other actor's
+	auto   bool
+	rootG  uint64
+	helper int
 }
 
 func newSched(prefix []int) *Sched {
-	return &Sched{parked: map[int]*parkedRec{}, goids: map[uint64]int{}, prefix: prefix, last: -1, horizon: 4000}
+	return &Sched{parked: map[int]*parkedRec{}, goids: map[uint64]int{}, prefix: prefix, last: -1, horizon: 4000, rootG: goid()}
 }
 
 // register binds the calling goroutine to an actor id.
@@ -78,6 +84,11 @@ func (s *Sched) Point(op string) {
 		return
 	}
 	actor, ok := s.goids[g]
+	if !ok && s.auto && g != s.rootG {
+		actor, ok = 50+s.helper, true
+		s.helper++
+		s.goids[g] = actor
+	}
 	if !ok {
 		// a goroutine the harness does not know: let it run (e.g. harness-side fs calls)
 		s.mu.Unlock()
